@@ -1,4 +1,5 @@
 import ServiceModel.Properties.C03
+import ServiceModel.Proofs.NoSlash
 /-!
 # C04 — Providers are slashed exactly when they fail a request
 -/
@@ -102,5 +103,12 @@ theorem slash_amount {s s1 : State} {r : ReqId} {svc : SvcName} {pv : Addr} {e :
     s1.bank.supply = s.bank.supply - (b.deposit * s.params.slash / decUnit : Nat) ∧
     (∃ b1, Map.get s1.bindings (svc, pv) = some b1 ∧ b1.deposit = b.deposit - b.deposit * s.params.slash / decUnit) :=
   C03.slash_burns hb h
+
+/-- … and never for any other reason: an operation that is neither a response nor the end of a block produces no
+    slash (whatever the state; a rejected operation produces no effect at all). Together with
+    `respond_slashes_iff_malformed` and `expiry_slashes_unless_super` this pins every slash to a failed request. -/
+theorem no_slash_outside_response_and_expiry (s : State) (op : Op) (hne : op.isEndblock = false)
+    (hnr : ∀ r pv c o, op ≠ .respond r pv c o) : ∀ e ∈ (step s op).2.2, e.isSlash = false :=
+  step_noSlash s op hne hnr
 
 end SM.C04
